@@ -13,12 +13,12 @@ Extraction "extracted/model.ml"
   Native.term Native.from_parser Native.grounded Native.complete Native.stable
   Native.stable_with_prefilter Native.stable_from_candidates Native.stability_check
   NoGood.ngs_new NoGood.add_ng NoGood.conclusions NoGood.conclusion_closure NoGood.conclude NoGood.is_violating
-  NoGood.ng_of_terms NoGood.update_term_vec
+  NoGood.ng_of_terms NoGood.update_term_vec NoGood.ng_single NoGood.disjunction NoGood.is_contradicting NoGood.try_from_pair_iter
   Search.stable_count_cur Search.heu_a Search.heu_b Search.nogood_search_cur
   GenLeaf.g_more_models GenLeaf.g_minimum GenLeaf.g_is_truth_value GenLeaf.g_compare_inf GenLeaf.g_no_inf_inconsistency GenLeaf.g_is_constant
   Bio.bio_grounded Bio.bio_complete Bio.bio_stable Bio.bio_stable_rew Bio.stable_candidates
   Bio.from_biodivine_vector Bio.bridge_all Bio.wf_dump
   Cli.cli_run Cli.wired
   Instance.run_events_cur Instance.handle_cur Instance.complete_cur Model.s0
-  Parser.parse Parser.varsort_lexi Parser.resolve_acs Parser.formula_p
+  Parser.parse Parser.parse_from Parser.varsort_lexi Parser.resolve_acs Parser.formula_p
   N.add N.mul N.div_eucl N.of_nat N.to_nat N.eqb N.ltb N.leb.
